@@ -12,12 +12,15 @@ frame := tag(4 bytes) u32 nfields { u32 len, bytes }*
     NENC spec, reason                     (serve only: the spec is not encodable)
     END  evaluated-plan-size, not-encodable, covered-values text
     KEY  class key, minimal spec, note    (serve only: end of a MIN conversation)
-serve commands (one line each, tab separated):  ONE <spec> | MIN <spec> <kind> | RES <kind> | GROUP <spec> | QUIT
+serve commands (one line each, tab separated):  ONE <spec> | MIN <spec> <kind> | SUB <spec> <kind> | RES <kind> | GROUP <spec> | QUIT
 
 A *family* is a finite product space of named choices (dims) with a builder; a case is a family name plus the
 non-default choices: "pbf|ds=basic|nodes=plain|granularity=7".  Every family has a deterministic plan per tier.
 """
+import hashlib
 import itertools
+import json
+import os
 import struct
 import sys
 
@@ -40,6 +43,7 @@ class Dim:
         self.name, self.values, self.kind = name, [str(v) for v in values], kind
         self.tri = set(str(v) for v in tri)
         self.default = self.values[0]
+        self.classify = None      # range dims: value -> name of its equivalence class (or None: use the failing interval)
 
 
 class Case:
@@ -72,8 +76,9 @@ class Family:
     def build(self, c):
         raise NotImplementedError
 
-    def plan(self, tier):
-        raise NotImplementedError
+    def plan(self, tier, shard=0, nshards=1):
+        """the cases of this shard; special families enumerate duplicate-free rows with rows(tier)"""
+        return itertools.islice(self.rows(tier), shard, None, nshards)
 
 
 def parse_spec(spec):
@@ -89,10 +94,16 @@ def parse_spec(spec):
 # data sets whose content is (for this format) outside what the format description / the library's documented
 # restrictions promise: counted as tri-state, never alarmed
 TRI_DATA = {
-    ("pbf", "cs_max"): "changeset-2^32-1", ("xml", "cs_max"): "changeset-2^32-1", ("o5m", "cs_max"): "changeset-2^32-1",
-    ("opl", "cs_max"): "changeset-2^32-1",
+    ("pbf", "cs_max"): "changeset-2^32-1", ("xml", "cs_max"): "changeset-2^32-1",
     ("opl", "outofrange"): "opl-location-outside-valid-range",
+    ("xml", "id_max"): "xml-id-INT64_MAX",
 }
+
+
+def hdrsize_class(v):
+    """class of a BlobHeader length by its 4-byte big-endian encoding: does one of the length bytes have the top bit set"""
+    v = int(v)
+    return "a-length-byte>=0x80" if (v & 0x80) or (v & 0x8000) else None
 
 
 class Std(Family):
@@ -109,6 +120,7 @@ class Std(Family):
         if fmt == "pbf":
             self.dim("hdrsize").kind = "range"
             self.dim("hdrsize").lo, self.dim("hdrsize").hi = 0, 65535
+            self.dim("hdrsize").classify = hdrsize_class
             self.dim("packed").tri = {"split"}
 
     def build(self, c):
@@ -134,25 +146,58 @@ class Std(Family):
         nondefault = any(c[d.name] != d.default for d in self.dims if d.name not in ("ds", "objs"))
         return Case(data, suffix, expected, nt=bool(nondefault and ds["objects"]), tri=tri)
 
-    def plan(self, tier):
-        return PLANS[self.fmt](self, tier)
+    def plan(self, tier, shard=0, nshards=1):
+        return sharded(self, PLANS[self.fmt](self, tier), shard, nshards)
 
 
 # ------------------------------------------------------------------------------------------------
 # enumeration helpers (all deterministic)
 
+class Product:
+    """full product over the named dims (strict values only unless menus says otherwise), the others default/fixed.
+    A product is a *region* of the choice space: rows of other sources that lie inside it are left to it."""
+
+    def __init__(self, fam, names, fixed=None, menus=None):
+        self.fam, self.names, self.fixed = fam, list(names), dict(fixed or {})
+        self.vals = []
+        for n in names:
+            d = fam.dim(n)
+            self.vals.append(list(menus[n]) if menus and n in menus else [v for v in d.values if v not in d.tri])
+        self.allowed = {n: set(v) for n, v in zip(self.names, self.vals)}
+        self.size = 1
+        for v in self.vals:
+            self.size *= len(v)
+
+    def contains(self, c):
+        """c: dict of non-default choices"""
+        for k, v in c.items():
+            if k in self.allowed:
+                if v not in self.allowed[k]:
+                    return False
+            elif self.fixed.get(k) != v:
+                return False
+        for k, v in self.fixed.items():
+            if k not in self.allowed and c.get(k, self.fam.dim(k).default) != v:
+                return False
+        for n in self.names:
+            if self.fam.dim(n).default not in self.allowed[n] and n not in c:
+                return False
+        return True
+
+    def rows(self, shard=0, nshards=1):
+        defaults = [self.fam.dim(n).default for n in self.names]
+        for combo in itertools.islice(itertools.product(*self.vals), shard, None, nshards):
+            c = dict(self.fixed)
+            for n, v, dv in zip(self.names, combo, defaults):
+                if v != dv:
+                    c[n] = v
+                else:
+                    c.pop(n, None)
+            yield c
+
+
 def product(fam, names, fixed=None, menus=None):
-    """full product over the named dims (strict values only unless menus says otherwise), others default/fixed"""
-    vals = []
-    for n in names:
-        d = fam.dim(n)
-        vals.append(menus[n] if menus and n in menus else [v for v in d.values if v not in d.tri])
-    for combo in itertools.product(*vals):
-        c = dict(fixed or {})
-        for n, v in zip(names, combo):
-            if v != fam.dim(n).default:
-                c[n] = v
-        yield c
+    return Product(fam, names, fixed, menus)
 
 
 def ball(fam, radius, fixed=None, skip=("ds", "objs"), with_tri=True):
@@ -170,18 +215,27 @@ def ball(fam, radius, fixed=None, skip=("ds", "objs"), with_tri=True):
 
 
 _cover_cache = {}
+CACHE_DIR = os.environ.get("C02_DATA", "/verif/build/C02-data")
 
 
 def covering(fam, t, skip=("ds", "objs"), menus=None):
     """greedy strength-t covering array over the strict values of all dims: every combination of values of every t
-    dims occurs in at least one row. Deterministic (fixed iteration order, first-best tie break)."""
-    key = (fam.name, t, skip, repr(menus))
-    if key in _cover_cache:
-        return _cover_cache[key]
+    dims occurs in at least one row. Deterministic (fixed iteration order, first-best tie break); the result is kept
+    in a file under build/C02-data (keyed by the menus) because every shard needs the same array."""
     dims = [d for d in fam.dims if d.name not in skip]
     vals = [(menus[d.name] if menus and d.name in menus else [v for v in d.values if v not in d.tri]) for d in dims]
     dims = [d for d, v in zip(dims, vals) if len(v) > 1]
     vals = [v for v in vals if len(v) > 1]
+    key = hashlib.sha1(repr((fam.name, t, [(d.name, d.default, v) for d, v in zip(dims, vals)], "v1")).encode()).hexdigest()[:16]
+    if key in _cover_cache:
+        return _cover_cache[key]
+    path = os.path.join(CACHE_DIR, "cover-%s.json" % key)
+    try:
+        with open(path) as fh:
+            _cover_cache[key] = json.load(fh)
+            return _cover_cache[key]
+    except (OSError, ValueError):
+        pass
     n = len(dims)
     t = min(t, n)
     todo = {}
@@ -218,7 +272,17 @@ def covering(fam, t, skip=("ds", "objs"), menus=None):
         for cs in itertools.combinations(range(n), t):
             todo.pop((cs, tuple(row[k] for k in cs)), None)
         rows.append({dims[k].name: vals[k][row[k]] for k in range(n) if vals[k][row[k]] != dims[k].default})
+    # self-check: every t-tuple of values is covered
+    assert not todo
     _cover_cache[key] = rows
+    try:
+        os.makedirs(CACHE_DIR, exist_ok=True)
+        tmp = path + ".tmp%d" % os.getpid()
+        with open(tmp, "w") as fh:
+            json.dump(rows, fh)
+        os.rename(tmp, path)
+    except OSError:
+        pass
     return rows
 
 
@@ -229,114 +293,128 @@ def with_fixed(rows, fixed):
         yield c
 
 
-def dedupe(fam, it):
+def sharded(fam, sources, shard, nshards):
+    """sources: iterables of rows (small; de-duplicated by case spec) and Product objects (regions). A row that lies
+    inside a product is left to that product, a product row inside an earlier product to the earlier one - so every
+    case of the plan occurs exactly once. Small rows are dealt to the shards round robin, product rows by their index."""
+    products = [s for s in sources if isinstance(s, Product)]
     seen = set()
-    for c in it:
-        s = fam.spec(c)
-        if s not in seen:
-            seen.add(s)
-            yield c
+    i = 0
+    for src in sources:
+        if isinstance(src, Product):
+            continue
+        for c in src:
+            c = {k: str(v) for k, v in c.items() if str(v) != fam.dim(k).default}
+            if any(p.contains(c) for p in products):
+                continue
+            sp = fam.spec(c)
+            if sp in seen:
+                continue
+            seen.add(sp)
+            if i % nshards == shard:
+                yield c
+            i += 1
+    for n, p in enumerate(products):
+        for c in p.rows(shard, nshards):
+            if not any(q.contains(c) for q in products[:n]):
+                yield c
 
 
 # ------------------------------------------------------------------------------------------------
-# plans of the four standard families
+# plans of the four standard families: lists of sources
 
 PBF_CORE = ["nodes", "granularity", "offset", "date_granularity", "info", "grouping"]
 PBF_BLOCK = ["nodes", "granularity", "offset", "date_granularity", "info", "order", "unknown", "defaults", "grouping", "stringtable",
              "empty", "dense_kv"]
 PBF_FRAME = ["blob", "order", "unknown", "header"]
 HDRSIZES_Q = [0, 64, 127, 128, 129, 255, 256, 257, 1000, 4095, 4096, 16383, 16384, 32767, 32768, 65535]
+NOHP = ("ds", "objs", "hdrsize", "packed")
 
 
 def plan_pbf(fam, tier):
-    def rows():
-        good = ["basic", "history", "nometa", "mixed", "strings", "single_full"]
-        for ds in good:
-            yield from ball(fam, 1, {"ds": ds})
-            yield from with_fixed(covering(fam, 3, skip=("ds", "objs", "hdrsize", "packed")), {"ds": ds})
-        for ds in ["extremes", "long", "waylocs", "cs_max", "outofrange", "single", "empty"]:
-            yield from ball(fam, 2 if ds in ("extremes", "waylocs") else 1, {"ds": ds})
-        yield from with_fixed(covering(fam, 2, skip=("ds", "objs", "hdrsize", "packed")), {"ds": "many"})
-        yield from with_fixed(covering(fam, 2, skip=("ds", "objs", "hdrsize", "packed")), {"ds": "empty"})
-        # blob framing: BlobHeader sizes x blob kinds x message layout
-        for h in HDRSIZES_Q:
-            yield from product(fam, PBF_FRAME, {"ds": "single_full", "hdrsize": str(h)})
+    src = []
+    good = ["basic", "history", "nometa", "anon", "mixed", "strings", "single_full"]
+    for ds in good:
+        src.append(ball(fam, 1, {"ds": ds}))
+        src.append(with_fixed(covering(fam, 3, skip=NOHP), {"ds": ds}))
+    for ds in ["extremes", "id_max", "long", "waylocs", "cs_max", "outofrange", "single", "empty"]:
+        src.append(ball(fam, 2 if ds in ("extremes", "waylocs", "outofrange") else 1, {"ds": ds}))
+    src.append(with_fixed(covering(fam, 2, skip=NOHP), {"ds": "many"}))
+    src.append(with_fixed(covering(fam, 2, skip=NOHP), {"ds": "empty"}))
+    # blob framing: BlobHeader sizes x blob kinds x message layout
+    for h in HDRSIZES_Q[1:]:
+        src.append(product(fam, PBF_FRAME, {"ds": "single_full", "hdrsize": str(h)}))
         for ds in ["basic", "empty"]:
-            for h in HDRSIZES_Q:
-                yield from product(fam, ["blob"], {"ds": ds, "hdrsize": str(h)})
-        # tri-state: packed fields split in two records
-        for ds in ["basic", "history", "many"]:
-            yield from product(fam, ["nodes", "info"], {"ds": ds, "packed": "split"})
-        if tier == "quick":
-            for ds in ["basic", "history"]:
-                yield from product(fam, PBF_CORE, {"ds": ds})
-        else:
-            # full product of every block-level choice on the two main data sets, and of the reduced core x framing
-            for ds in ["basic", "history"]:
-                yield from product(fam, PBF_BLOCK, {"ds": ds})
-            for ds in ["nometa", "mixed", "strings", "single_full", "extremes", "waylocs"]:
-                yield from product(fam, PBF_CORE + ["stringtable", "dense_kv"], {"ds": ds})
-            for ds in ["basic", "history"]:
-                yield from product(fam, ["nodes", "info", "grouping", "empty"] + PBF_FRAME, {"ds": ds})
-            for h in range(1, 65536):          # every BlobHeader size up to the limit
-                yield {"ds": "single_full", "hdrsize": str(h)}
-            for h in range(1, 65536, 17):
-                yield {"ds": "single_full", "hdrsize": str(h), "blob": "zlib", "order": "reversed"}
-    return dedupe(fam, rows())
+            src.append(product(fam, ["blob"], {"ds": ds, "hdrsize": str(h)}))
+    # tri-state: packed fields split in two records
+    for ds in ["basic", "history", "many"]:
+        src.append(product(fam, ["nodes", "info"], {"ds": ds, "packed": "split"}))
+    if tier == "quick":
+        for ds in ["basic", "history"]:
+            src.append(product(fam, PBF_CORE, {"ds": ds}))
+    else:
+        # full product of every block-level choice on the two main data sets, of a reduced core on six more, and of the
+        # framing choices; every BlobHeader size up to the limit
+        for ds in ["basic", "history"]:
+            src.append(product(fam, PBF_BLOCK, {"ds": ds}))
+        for ds in ["nometa", "anon", "mixed", "strings", "single_full", "extremes", "waylocs"]:
+            src.append(product(fam, PBF_CORE + ["stringtable", "dense_kv"], {"ds": ds}))
+        for ds in ["basic", "history"]:
+            src.append(product(fam, ["nodes", "info", "grouping", "empty"] + PBF_FRAME, {"ds": ds}))
+        allsizes = [str(h) for h in range(1, 65536)]
+        src.append(product(fam, ["hdrsize"], {"ds": "single_full"}, menus={"hdrsize": allsizes}))
+        src.append(product(fam, ["hdrsize"], {"ds": "single_full", "blob": "zlib", "order": "reversed"}, menus={"hdrsize": allsizes[::17]}))
+    return src
 
 
 O5M_ALL = ["filetype", "strings", "reset", "extras", "header", "end"]
 
 
 def plan_o5m(fam, tier):
-    def rows():
-        dss = ["basic", "history", "nometa", "mixed", "strings", "single_full", "extremes", "long", "many", "single", "empty",
-               "cs_max", "outofrange"]
-        for ds in dss:
-            yield from product(fam, O5M_ALL, {"ds": ds})
-    return dedupe(fam, rows())
+    dss = ["basic", "history", "nometa", "anon", "mixed", "strings", "single_full", "extremes", "long", "many", "single", "empty",
+           "cs_max", "outofrange", "id_max"]
+    return [product(fam, O5M_ALL, {"ds": ds}) for ds in dss]
 
 
 XML_CORE = ["attrs", "quote", "escape", "space", "optattrs"]
 
 
 def plan_xml(fam, tier):
-    def rows():
-        skip = ("ds", "objs")
-        good = ["basic", "history", "nometa", "mixed", "strings", "single_full", "extremes", "waylocs", "changesets", "discussion"]
-        for ds in good:
-            yield from ball(fam, 1, {"ds": ds})
-            yield from with_fixed(covering(fam, 3 if tier == "quick" else 4, skip=skip), {"ds": ds})
-        for ds in ["long", "cs_max", "outofrange", "single", "empty", "many"]:
-            yield from ball(fam, 1, {"ds": ds})
-            yield from with_fixed(covering(fam, 2, skip=skip), {"ds": ds})
-        # tri-state values paired with every other single choice
-        for d in fam.dims:
-            for v in sorted(d.tri):
-                for ds in ["basic", "strings"]:
-                    yield from ball(fam, 1, {"ds": ds, d.name: v})
-        for ds in ["basic", "strings"] if tier == "quick" else good:
-            yield from product(fam, XML_CORE, {"ds": ds})
-        if tier == "thorough":
-            for ds in ["basic", "history", "strings"]:
-                yield from product(fam, ["root", "sections", "decl", "empty", "children", "visible", "bounds", "extras", "coords"], {"ds": ds},
-                                   menus={"children": ["refs_first", "tags_first"]})
-    return dedupe(fam, rows())
+    src = []
+    skip = ("ds", "objs")
+    good = ["basic", "history", "nometa", "anon", "mixed", "strings", "single_full", "extremes", "waylocs", "changesets", "discussion"]
+    for ds in good:
+        src.append(ball(fam, 1, {"ds": ds}))
+        src.append(with_fixed(covering(fam, 3 if tier == "quick" else 4, skip=skip), {"ds": ds}))
+    for ds in ["long", "cs_max", "outofrange", "id_max", "single", "empty", "many"]:
+        src.append(ball(fam, 1, {"ds": ds}))
+        src.append(with_fixed(covering(fam, 2, skip=skip), {"ds": ds}))
+    # tri-state values paired with every other single choice
+    for d in fam.dims:
+        for v in sorted(d.tri):
+            for ds in ["basic", "strings"]:
+                src.append(ball(fam, 1, {"ds": ds, d.name: v}))
+    for ds in ["basic", "strings"] if tier == "quick" else good:
+        src.append(product(fam, XML_CORE, {"ds": ds}))
+    if tier == "thorough":
+        for ds in ["basic", "history", "strings"]:
+            src.append(product(fam, ["root", "sections", "decl", "empty", "children", "visible", "bounds", "extras", "coords"], {"ds": ds}))
+    return src
 
 
 OPL_ALL = ["order", "optional", "sep", "eol", "final", "filler", "escape", "coords"]
 
 
 def plan_opl(fam, tier):
-    def rows():
-        full = ["basic", "history", "strings"] if tier == "quick" else \
-            ["basic", "history", "strings", "nometa", "mixed", "single_full", "extremes", "waylocs", "changesets", "long"]
-        for ds in full:
-            yield from product(fam, OPL_ALL, {"ds": ds})
-        for ds in ["nometa", "mixed", "single_full", "extremes", "waylocs", "changesets", "long", "many", "cs_max", "outofrange", "single", "empty"]:
-            yield from ball(fam, 2, {"ds": ds})
-            yield from with_fixed(covering(fam, 3), {"ds": ds})
-    return dedupe(fam, rows())
+    src = []
+    full = ["basic", "history", "strings"] if tier == "quick" else \
+        ["basic", "history", "strings", "nometa", "anon", "mixed", "single_full", "extremes", "waylocs", "changesets", "long"]
+    for ds in ["nometa", "anon", "mixed", "single_full", "extremes", "waylocs", "changesets", "long", "many", "cs_max", "outofrange", "id_max", "single", "empty"]:
+        src.append(ball(fam, 2, {"ds": ds}))
+        src.append(with_fixed(covering(fam, 3), {"ds": ds}))
+    for ds in full:
+        src.append(product(fam, OPL_ALL, {"ds": ds}))
+    return src
 
 
 PLANS = {"pbf": plan_pbf, "o5m": plan_o5m, "xml": plan_xml, "opl": plan_opl}
@@ -353,7 +431,7 @@ import special  # noqa: E402  (registers the special families: o5m tails/table/b
 special.register(sys.modules[__name__])
 
 PARTS = {   # part name -> families enumerated by it
-    "pbf": ["pbf"], "o5m": ["o5m", "o5m-tail", "o5m-table", "o5m-len"], "xml": ["xml", "xml-perm"], "opl": ["opl", "opl-perm"],
+    "pbf": ["pbf-size", "pbf"], "o5m": ["o5m", "o5m-tail", "o5m-table", "o5m-len"], "xml": ["xml", "xml-perm"], "opl": ["opl", "opl-perm"],
     "tiny": ["tiny"], "agree": ["agree"],
 }
 
@@ -376,21 +454,17 @@ def rec(out, fam, c, case):
     frame(out, b"REC ", fam.spec(c), case.suffix, case.data, case.expected, meta)
 
 
-def cases_of_part(part, tier):
+def cases_of_part(part, tier, shard=0, nshards=1):
     for fname in PARTS[part]:
         fam = FAMILIES[fname]
-        for c in fam.plan(tier):
+        for c in fam.plan(tier, shard, nshards):
             yield fam, c
 
 
 def cmd_enum(part, tier, shard, nshards, skip, out):
     n = nenc = 0
     covered = {}
-    idx = -1
-    for fam, c in cases_of_part(part, tier):
-        idx += 1
-        if idx % nshards != shard:
-            continue
+    for fam, c in cases_of_part(part, tier, shard, nshards):
         n += 1
         if n <= skip:
             continue
@@ -446,14 +520,23 @@ class Server:
         cache[s] = r[1] if len(r) > 1 else ""
         return cache[s]
 
-    def minimise(self, spec, kind):
-        fam, c = parse_spec(spec)
-        c = {k: v for k, v in fam.full(c).items() if v != fam.dim(k).default}
+    def subsumed(self, fam, c, kind):
         for (f, k, m, key) in self.known:          # a superset of a minimal failing set already found: same class
             if f == fam.name and k == kind and all(self._in(c.get(d, fam.dim(d).default), vs) for d, vs in m.items()):
                 frame(self.out, b"KEY ", key, "", "subsumed")
                 self.out.flush()
-                return
+                return True
+        return False
+
+    def minimise(self, spec, kind, only_lookup=False):
+        fam, c = parse_spec(spec)
+        c = {k: v for k, v in fam.full(c).items() if v != fam.dim(k).default}
+        if self.subsumed(fam, c, kind):
+            return
+        if only_lookup:
+            frame(self.out, b"KEY ", "", "", "unknown")
+            self.out.flush()
+            return
         cache = {fam.spec(c): kind}
         changed = True
         while changed:                              # reset choices to their default until no single reset keeps the failure
@@ -487,18 +570,31 @@ class Server:
         # contiguous failing interval of every numeric (range) choice in the minimal set
         m = {}
         parts = []
+        if hasattr(fam, "reduce"):
+            c, dname, label, member = fam.reduce(c, kind, lambda t: self.ask(fam, t, cache))
+            if label:
+                parts.append(label)
+                m[dname] = ("class", member, label)
         for d in fam.dims:
-            if d.name not in c or d.name in ("ds", "objs"):
+            if d.name not in c or d.name in ("ds", "objs") or d.kind == "perm":
                 continue
-            if d.kind == "range":
+            if d.kind == "range" and d.classify and d.classify(c[d.name]):
+                m[d.name] = ("class", d.classify, d.classify(c[d.name]))
+                parts.append("%s~%s" % (d.name, d.classify(c[d.name])))
+            elif d.kind == "range":
                 v = int(c[d.name])
                 lo = hi = v
-                while lo - 1 >= d.lo and lo - 1 != int(d.default) and self.ask(fam, dict(c, **{d.name: str(lo - 1)}), cache) == kind:
+                cap = 256      # neighbours probed per direction; an interval that is longer is written "lo-..hi+"
+                while lo - 1 >= d.lo and v - lo < cap and lo - 1 != int(d.default) and self.ask(fam, dict(c, **{d.name: str(lo - 1)}), cache) == kind:
                     lo -= 1
-                while hi + 1 <= d.hi and hi + 1 != int(d.default) and self.ask(fam, dict(c, **{d.name: str(hi + 1)}), cache) == kind:
+                while hi + 1 <= d.hi and hi - v < cap and hi + 1 != int(d.default) and self.ask(fam, dict(c, **{d.name: str(hi + 1)}), cache) == kind:
                     hi += 1
                 m[d.name] = (lo, hi)
-                parts.append("%s=%d..%d" % (d.name, lo, hi))
+                if v - lo >= cap or hi - v >= cap:     # open-ended: name the class by its order of magnitude only
+                    m[d.name] = (lo if v - lo < cap else d.lo, hi if hi - v < cap else d.hi)
+                    parts.append("%s=%s..%s" % (d.name, lo if v - lo < cap else "", hi if hi - v < cap else ""))
+                else:
+                    parts.append("%s=%d..%d" % (d.name, lo, hi))
             else:
                 m[d.name] = {c[d.name]}
                 parts.append("%s=%s" % (d.name, c[d.name]))
@@ -509,6 +605,8 @@ class Server:
 
     @staticmethod
     def _in(v, vs):
+        if isinstance(vs, tuple) and vs[0] == "class":
+            return vs[1](v) == vs[2]
         if isinstance(vs, tuple):
             return v.lstrip("-").isdigit() and vs[0] <= int(v) <= vs[1]
         return v in vs
@@ -533,6 +631,8 @@ class Server:
                 self.out.flush()
             elif cmd[0] == "MIN":
                 self.minimise(cmd[1], cmd[2])
+            elif cmd[0] == "SUB":
+                self.minimise(cmd[1], cmd[2], only_lookup=True)
             else:
                 raise RuntimeError("protocol: unknown command %r" % cmd)
 
